@@ -2,6 +2,7 @@ import GdslModel.Model.Store
 import GdslModel.Model.Spec
 import GdslModel.Model.Search
 import GdslModel.Model.Container
+import GdslModel.Model.Json
 import GdslModel.Model.Own
 import GdslModel.Model.Sync
 import GdslModel.Model.Live
@@ -208,6 +209,15 @@ def showDoc (d : List (Nat × Int) × List (Nat × Nat × Nat)) : String :=
   "[[" ++ ",".intercalate (d.1.map fun (k, v) => s!"[{k},{v}]") ++ "],[" ++
     ",".intercalate (d.2.map fun (u, v, e) => s!"[{u},{v},{e}]") ++ "]]"
 
+def hexVal (c : Char) : Nat :=
+  if '0' ≤ c && c ≤ '9' then c.toNat - 48 else if 'a' ≤ c && c ≤ 'f' then c.toNat - 87 else 0
+/-- `x5b5d` -> `[0x5b, 0x5d]` -/
+def unhex (h : String) : List Nat :=
+  let rec go : List Char → List Nat
+    | a :: b :: rest => (hexVal a * 16 + hexVal b) :: go rest
+    | _ => []
+  go (h.toList.drop 1)
+
 /-- replace the world of the case by a rebuilt graph (slot 0) -/
 def newWorld (st : St) (ns : List (Nat × Int)) (s : S) : St :=
   { st with keys := ns.map (·.1), nvals := ns, s := s, graphs := [(0, { members := ns.map (·.1) })] }
@@ -310,6 +320,12 @@ def contReq (st : St) (toks : List String) : St × String :=
         | none => (st, "err")
         | some (ns, s) => (newWorld st ns s, "ok")
     | none => (st, "bad-op")
+  | ["g.deraw", _i, "json", hex] =>
+    -- raw bytes through the byte-level JSON model
+    match Json.deJson (unhex hex) with
+    | none => (st, "err")
+    | some (ns, s) => (newWorld st ns s, s!"ok n={ns.length}")
+  | ["g.deraw", _i, _fmt, _hex] => (st, "any")
   | "g.de" :: _i :: _fmt :: _doc =>
     match parseAbs toks with
     | none => (st, "bad-abs")
